@@ -966,7 +966,7 @@ func intParamIndex(f *ssa.Function) int {
 }
 
 var ruleCap = &core.Rule{ID: "R16.2", Min: 8,
-	Doc: "depth-guarded recursion: entry guard depth > cap => return 0 dominates all intra-SCC calls; depth argument never decreases and grows on every cycle; every construction of the scanner state installs a positive constant cap and nothing overwrites it (a whole-state reset must restore the cap it loaded before); wrappers outside the family run on the caller's state only; the guard rejects exactly depths above the cap",
+	Doc: "depth-guarded recursion: entry guard depth > cap => return 0 dominates all intra-SCC calls; depth argument never decreases and grows on every cycle; every construction of the scanner state installs a positive constant cap and nothing overwrites it (a whole-state reset must restore the cap it loaded before); wrappers outside the family run on the caller's state only; the guard rejects exactly depths above the cap; 4096 <= cap <= 100000",
 	Run: func(c *core.Ctx, s *core.Sink) {
 		m := getJSON(c)
 		if m.capF < 0 || m.guardFn == nil {
@@ -1017,6 +1017,11 @@ var ruleCap = &core.Rule{ID: "R16.2", Min: 8,
 				}
 			}
 			s.Check(bad == "", fmt.Sprintf("%s: guard table for cap", g.Name()), c.Pos(g.Pos()), fmt.Sprintf("cap=%d: %d depths around the cap tabulated", cv, tested), bad)
+			// the cap itself: deep enough for every document the library promises to recognise (nesting up to 4096), and small
+			// enough to be a cap: with about 0.3 KB of stack per level 100000 levels stay below 32 MB, and inputs of millions of
+			// brackets are cut off, not scanned to the end
+			s.Check(cv >= 4096, "recursion cap admits nesting depth 4096", c.Pos(g.Pos()), fmt.Sprintf("cap = %d", cv), fmt.Sprintf("the recursion cap is %d: well-formed documents nested deeper than that, but within the 4096 levels the library supports, are no longer recognised as JSON", cv))
+			s.Check(cv <= 100000, "recursion cap bounds the stack", c.Pos(g.Pos()), fmt.Sprintf("cap = %d", cv), fmt.Sprintf("the recursion cap is %d: it is never reached by any realistic input, recursion depth (and stack use) again grows with the input, and inputs of millions of nested brackets are scanned to the end and reported as JSON", cv))
 		}
 		// (b) depth arguments along intra-family calls: never decreasing, and on every cycle through the
 		// guard function the total increase is at least 1
